@@ -478,8 +478,9 @@ type gate struct {
 	hit     int32
 	cancel  context.CancelFunc
 	release chan struct{}
-	act     func() // mode "act"
+	act     func(ctx context.Context) // mode "act"; ctx is the context the armed resolver was called with
 	actErr  error
+	lastCtx context.Context
 }
 
 var theGate = &gate{}
@@ -493,6 +494,13 @@ func (g *gate) arm(target, mode string, cancel context.CancelFunc) {
 }
 
 func init() {
+	bound.Env.OnCallCtx = func(ctx context.Context, typ string, id int64, f *world.FieldSpec) {
+		theGate.mu.Lock()
+		if theGate.mode == "act" && theGate.target == typ+"."+f.Name {
+			theGate.lastCtx = ctx
+		}
+		theGate.mu.Unlock()
+	}
 	bound.Env.Fault = func(typ string, id int64, f *world.FieldSpec, a world.ArgVal, batch bool) error {
 		theGate.mu.Lock()
 		target, mode, cancel := theGate.target, theGate.mode, theGate.cancel
@@ -513,11 +521,11 @@ func init() {
 			// the server context ends) while this resolver is running, then give up the way a
 			// resolver that watches its context does
 			theGate.mu.Lock()
-			act, ret := theGate.act, theGate.actErr
+			act, ret, ctx := theGate.act, theGate.actErr, theGate.lastCtx
 			theGate.act = nil
 			theGate.mu.Unlock()
 			if act != nil {
-				act()
+				act(ctx)
 				return ret
 			}
 		}
